@@ -2,7 +2,7 @@
    Statements only; proofs in Proofs_Unified.v (byte level: formatter.cpp against parser.cpp), Proofs_Rejects.v (which
    hunks are written), Proofs_Decimal.v (numbers). *)
 From PatchV Require Import Base Lines Hunk Locator Formatter Options Applier LineParser Parser Spec_Locate Spec_Apply
-     Proofs_Apply Proofs_Decimal Proofs_Unified Proofs_Rejects.
+     Proofs_Apply Proofs_Decimal Proofs_Unified Proofs_Rejects Proofs_CtxLines Proofs_CtxMerge Proofs_Context.
 
 (* a line number that is printed is read back as itself (up to 2^63-1) *)
 Theorem consume_printed : forall n rest,
@@ -59,3 +59,79 @@ Proof.
   - unfold wf_hunk, wf_range, wf_body, wf_pline, clean, MAXZ. cbn. repeat split; try discriminate; try lia; try tauto; try (intros _; vm_compute; auto); vm_compute; intuition discriminate.
   - vm_compute. reflexivity.
 Qed.
+
+(* ---------------------------------------------------------------------------------------------------------------
+   C13, context form: "writing any hunk in unified or context form and reading it back never changes the change it
+   denotes".  Proofs in Proofs_CtxLines.v (range lines and hunk lines, byte level), Proofs_CtxMerge.v (the writer's state
+   machine against hunk_from_context_parts), Proofs_Context.v (parse_context_patch). *)
+
+(* One hunk written in context form after a line of stars is read back by this tool's own reader as a hunk with the same
+   ranges, the same old side and the same new side, lines without newline included; its body is the body of the hunk with,
+   inside each change group, the deletions moved before the additions (the context form cannot say more).
+   sep = "***************" LF.  wf_hunk_c, tail_ok_c, final_c: see Proofs_Context.v. *)
+Theorem context_roundtrip : forall h t tail,
+  wf_hunk_c h -> tail_ok_c tail -> write_hunk_as_context h = Ok t ->
+  exists h', parse_context_patch (strm (sep ++ t ++ tail)) = Ok ([h'], final_c h tail) /\
+             oldr h' = oldr h /\ newr h' = newr h /\ body h' = normalise (body h) /\
+             old_side (body h') = old_side (body h) /\ new_side (body h') = new_side (body h).
+Proof. exact Proofs_Context.context_roundtrip. Qed.
+Print Assumptions context_roundtrip.
+
+(* several hunks, as they stand in a context reject file after its two header lines *)
+Theorem context_roundtrip_list : forall h hs ts tail,
+  Forall wf_hunk_c (h :: hs) -> tail_ok_c tail ->
+  Forall2 (fun h t => write_hunk_as_context h = Ok t) (h :: hs) ts ->
+  parse_context_patch (strm (flat_map (fun t => sep ++ t) ts ++ tail))
+  = Ok (map norm_hunk (h :: hs), final_c (lasth h hs) tail).
+Proof. exact Proofs_Context.context_roundtrip_list. Qed.
+Print Assumptions context_roundtrip_list.
+
+(* the normalisation keeps both sides and is a projection; a hunk that came out of the reader is written and read back
+   as exactly itself *)
+Theorem normalise_sides : forall b, old_side (normalise b) = old_side b /\ new_side (normalise b) = new_side b.
+Proof. exact Proofs_CtxMerge.normalise_sides. Qed.
+Print Assumptions normalise_sides.
+
+Theorem normalise_idem : forall b, normalise (normalise b) = normalise b.
+Proof. exact Proofs_Context.normalise_idem. Qed.
+Print Assumptions normalise_idem.
+
+Theorem context_roundtrip_normal : forall h tail,
+  wf_hunk_c h -> tail_ok_c tail ->
+  parse_context_patch (strm (sep ++ ctext (norm_hunk h) ++ tail)) = Ok ([norm_hunk h], final_c h tail).
+Proof. exact Proofs_Context.context_roundtrip_normal. Qed.
+Print Assumptions context_roundtrip_normal.
+
+(* what apply_patch writes to a context reject file: the two header lines, then each rejected hunk after a line of stars *)
+Theorem reject_context_file : forall o p h hs,
+  should_write_as_unified o p = false -> Forall wf_hunk_c (h :: hs) ->
+  reject_stream o p 0 (h :: hs) = Ok (ctx_header_lines p ++ emit_c (h :: hs)).
+Proof. exact Proofs_Context.reject_context_file. Qed.
+Print Assumptions reject_context_file.
+
+(* a hunk fit for the context form is fit for the unified form (wf_hunk of Proofs_Unified.v) when both ranges end inside
+   int64; so for such a hunk both halves of C13 hold: unified gives the hunk back, context gives the normalised hunk *)
+Theorem wf_hunk_c_unified : forall h, wf_hunk_c h -> range_fits (oldr h) -> range_fits (newr h) -> wf_hunk h.
+Proof. exact Proofs_Context.wf_hunk_c_unified. Qed.
+Print Assumptions wf_hunk_c_unified.
+
+Theorem roundtrip_both_forms : forall h tail,
+  wf_hunk_c h -> range_fits (oldr h) -> range_fits (newr h) ->
+  (tail_ok tail -> parse_unified_patch (strm (write_hunk_as_unified h ++ tail)) = Ok ([h], after tail)) /\
+  (tail_ok_c tail -> parse_context_patch (strm (sep ++ ctext h ++ tail)) = Ok ([norm_hunk h], final_c h tail)).
+Proof. exact Proofs_Context.roundtrip_both_forms. Qed.
+Print Assumptions roundtrip_both_forms.
+
+(* the hypotheses can be checked by computation *)
+Theorem wf_hunk_cb_ok : forall h, wf_hunk_cb h = true -> wf_hunk_c h.
+Proof. exact Proofs_Context.wf_hunk_cb_ok. Qed.
+Print Assumptions wf_hunk_cb_ok.
+Theorem tail_ok_cb_ok : forall tail, tail_ok_cb tail = true -> tail_ok_c tail.
+Proof. exact Proofs_Context.tail_ok_cb_ok. Qed.
+Print Assumptions tail_ok_cb_ok.
+
+Example roundtrip_context_nonvacuous :
+  wf_hunk_c exc_h1 /\ wf_hunk_c exc_h2 /\ wf_hunk_c exc_h3 /\
+  parse_context_patch (strm (emit_c [exc_h1; exc_h2; exc_h3] ++ bs "diff -c a b" ++ [10%N]))
+  = Ok ([norm_hunk exc_h1; exc_h2; exc_h3], strm (bs "diff -c a b" ++ [10%N])).
+Proof. destruct exc_wf as (A & B & C). exact (conj A (conj B (conj C exc_roundtrip))). Qed.
